@@ -86,18 +86,18 @@ func RunLife(sc LifeScenario) (evs []Ev, inconclusive string) {
 	pc.OverflowConfig.BlockTimeout = 0
 	pc.WorkerConfig.SinkPoolSize = 2
 	pc.WorkerConfig.SinkWorkerCount = 2
-	s := streamsql.New(streamsql.WithCustomPerformance(pc), streamsql.WithDiscardLog())
+	s := newInstance(streamsql.WithCustomPerformance(pc), streamsql.WithDiscardLog())
 	sql := lifeSQL[sc.Kind]
 	if err := s.Execute(sql); err != nil {
 		return nil, "execute: " + err.Error()
 	}
-	in.Bind(s.Stream())
 	in.OnHook = func(point string, a, b, c int64) Ev {
 		if point == "stop.ret" { // end of the Stop call that performed the teardown (a concurrent second Stop returns early, before this)
 			log(Ev{"e": "teardown.done", "q": atomic.AddInt64(&seq, 1)})
 		}
 		return nil
 	}
+	in.Bind(s.Stream()) // after OnHook is set: engine goroutines may reach a hook point at once
 	log(Ev{"e": "reset", "kind": sc.Kind, "strategy": sc.Strategy, "sinks": sc.Sinks, "directed": sc.Directed, "cep": b2i(sc.Kind == "cep")})
 	var panics int64
 	guard := func(what string, f func()) {
